@@ -290,6 +290,9 @@ impl<K: KeyT, V: ValT> MapWorld<K, V> {
         }
         self.ctx.note_state(&d);
         self.ctx.group_monitor(&d)?;
+        if let Some((c, det)) = dump::check_budget(&d) {
+            vio!(self, c, "{det}");
+        }
         let act = self.actual(si);
         for (e, ok) in &act {
             if !ok {
